@@ -182,11 +182,18 @@ def _line_infinite_cylinder_intersection(a, b, r, n):
         second edge of intersection segment (direction n)
     '''
     nxa = sc.cross(n, a)
+    # In exact arithmetic nxa is perpendicular to a, and only the part of b that is
+    # perpendicular to a enters the expressions below. Enforce both: for a line that is
+    # parallel to the axis up to rounding, nxa consists of rounding errors, and its
+    # spurious component along a, multiplied by the axial part of b, made s2 negative
+    # (path length 0) for start points inside the cylinder.
+    nxa = nxa - sc.dot(nxa, a) * a
+    b_perp = b - sc.dot(b, a) * a
     nxa_square = sc.dot(nxa, nxa)
     parallel_to_cylinder = nxa_square == sc.scalar(0.0, unit=nxa.unit)
-    s2 = nxa_square * r**2 - sc.dot(b, nxa) ** 2
+    s2 = nxa_square * r**2 - sc.dot(b_perp, nxa) ** 2
     s = sc.sqrt(s2)
-    m = sc.dot(nxa, sc.cross(b, a))
+    m = sc.dot(nxa, sc.cross(b_perp, a))
     intersection = s2 >= sc.scalar(0.0, unit=s2.unit)
     left = sc.where(
         parallel_to_cylinder,
@@ -196,7 +203,7 @@ def _line_infinite_cylinder_intersection(a, b, r, n):
     right = sc.where(
         parallel_to_cylinder, sc.scalar(float('inf'), unit=m.unit), (m + s) / nxa_square
     )
-    origin_in_cylinder = sc.norm(b - sc.dot(b, a) * a) <= r
+    origin_in_cylinder = sc.norm(b_perp) <= r
     return (
         sc.where(parallel_to_cylinder, origin_in_cylinder, intersection),
         left,
